@@ -787,7 +787,9 @@ package packets1
 //@      (istype(p, *WillMsgResp) ==> uint8(p.(*WillMsgResp).Header.pktType) == 29)
 //@ pred gwToClientType(p iface) = istype(p, *Connack) || istype(p, *WillTopicReq) || istype(p, *WillMsgReq) || istype(p, *Register) || istype(p, *Regack) || istype(p, *Publish) || istype(p, *Puback) || istype(p, *Pubcomp) || istype(p, *Pubrec) || istype(p, *Pubrel) || istype(p, *Suback) || istype(p, *Unsuback) || istype(p, *Pingresp) || istype(p, *Disconnect) || istype(p, *WillTopicResp) || istype(p, *WillMsgResp) || istype(p, *Advertise) || istype(p, *GwInfo)
 //@ pred clientToGwType(p iface) = istype(p, *Connect) || istype(p, *Auth) || istype(p, *WillTopic) || istype(p, *WillMsg) || istype(p, *Register) || istype(p, *Regack) || istype(p, *Publish) || istype(p, *Puback) || istype(p, *Pubcomp) || istype(p, *Pubrec) || istype(p, *Pubrel) || istype(p, *Subscribe) || istype(p, *Unsubscribe) || istype(p, *Pingreq) || istype(p, *Disconnect) || istype(p, *WillTopicUpd) || istype(p, *WillMsgUpd) || istype(p, *SearchGw)
-// (restricted to the packet types of the direction: equivalent to packable && typedHeader && <direction>Type, with fewer reads)
+// (restricted to the packet types of the direction: packable && typedHeader && <direction>Type, with fewer reads, plus the lower bounds under which
+//  the peer's decoder accepts the body: the `accepts` clauses of the Unpack contracts - a REGISTER / string SUBSCRIBE / UNSUBSCRIBE needs a
+//  non-empty name, a CONNECT a non-empty client ID and protocol ID 1, SUBSCRIBE / UNSUBSCRIBE a topic-ID type 0-2)
 //@ opaque pred wfFromGateway(p iface) = p != nil && gwToClientType(p) &&
 //@      (istype(p, *Advertise) ==> p.(*Advertise).Header.pktLength == 5) &&
 //@      (istype(p, *Connack) ==> p.(*Connack).Header.pktLength == 3) &&
@@ -804,7 +806,7 @@ package packets1
 //@      (istype(p, *WillTopicResp) ==> p.(*WillTopicResp).Header.pktLength == 3) &&
 //@      (istype(p, *WillMsgResp) ==> p.(*WillMsgResp).Header.pktLength == 3) &&
 //@      (istype(p, *GwInfo) ==> len(p.(*GwInfo).GatewayAddress) <= 8187) &&
-//@      (istype(p, *Register) ==> len(p.(*Register).TopicName) <= 8184) &&
+//@      (istype(p, *Register) ==> len(p.(*Register).TopicName) <= 8184 && len(p.(*Register).TopicName) >= 1) &&
 //@      (istype(p, *Publish) ==> len(p.(*Publish).Data) <= 8183) &&
 //@      (istype(p, *Disconnect) ==> 0 <= 8186) &&
 //@      (istype(p, *Advertise) ==> uint8(p.(*Advertise).Header.pktType) == 0) &&
@@ -832,17 +834,17 @@ package packets1
 //@      (istype(p, *Pubcomp) ==> p.(*Pubcomp).Header.pktLength == 4) &&
 //@      (istype(p, *Pubrec) ==> p.(*Pubrec).Header.pktLength == 4) &&
 //@      (istype(p, *Pubrel) ==> p.(*Pubrel).Header.pktLength == 4) &&
-//@      (istype(p, *Connect) ==> len(p.(*Connect).ClientID) <= 8184) &&
+//@      (istype(p, *Connect) ==> len(p.(*Connect).ClientID) <= 8184 && len(p.(*Connect).ClientID) >= 1 && p.(*Connect).ProtocolID == 1) &&
 //@      (istype(p, *WillMsg) ==> len(p.(*WillMsg).WillMsg) <= 8188) &&
-//@      (istype(p, *Register) ==> len(p.(*Register).TopicName) <= 8184) &&
+//@      (istype(p, *Register) ==> len(p.(*Register).TopicName) <= 8184 && len(p.(*Register).TopicName) >= 1) &&
 //@      (istype(p, *Publish) ==> len(p.(*Publish).Data) <= 8183) &&
 //@      (istype(p, *Pingreq) ==> len(p.(*Pingreq).ClientID) <= 8188) &&
 //@      (istype(p, *WillMsgUpd) ==> len(p.(*WillMsgUpd).WillMsg) <= 8188) &&
 //@      (istype(p, *Auth) ==> len(p.(*Auth).Method) + len(p.(*Auth).Data) <= 8186 && len(p.(*Auth).Method) <= 255) &&
 //@      (istype(p, *WillTopic) ==> len(p.(*WillTopic).WillTopic) <= 8187) &&
 //@      (istype(p, *WillTopicUpd) ==> len(p.(*WillTopicUpd).WillTopic) <= 8187) &&
-//@      (istype(p, *Subscribe) ==> len(p.(*Subscribe).TopicName) <= 8183) &&
-//@      (istype(p, *Unsubscribe) ==> len(p.(*Unsubscribe).TopicName) <= 8183) &&
+//@      (istype(p, *Subscribe) ==> len(p.(*Subscribe).TopicName) <= 8183 && p.(*Subscribe).TopicIDType <= 2 && (p.(*Subscribe).TopicIDType == 0 ==> len(p.(*Subscribe).TopicName) >= 1)) &&
+//@      (istype(p, *Unsubscribe) ==> len(p.(*Unsubscribe).TopicName) <= 8183 && p.(*Unsubscribe).TopicIDType <= 2 && (p.(*Unsubscribe).TopicIDType == 0 ==> len(p.(*Unsubscribe).TopicName) >= 1)) &&
 //@      (istype(p, *Disconnect) ==> 0 <= 8186) &&
 //@      (istype(p, *SearchGw) ==> uint8(p.(*SearchGw).Header.pktType) == 1) &&
 //@      (istype(p, *Auth) ==> uint8(p.(*Auth).Header.pktType) == 3) &&
